@@ -248,6 +248,7 @@ func (c *Ctx) scopeNextNode() {
 	}
 	name := FuncName(fn)
 	commentPos := P.Desc(fn.Params[1])
+	commentPosDeep := P.DescDeep(fn.Params[1])
 	declsOf := func(d string) bool {
 		return strings.HasPrefix(d, "elem[?](field(") && strings.Contains(d, "go/ast.File.Decls)")
 	}
@@ -277,7 +278,7 @@ func (c *Ctx) scopeNextNode() {
 		nd := P.Desc(node)
 		// the node starts after the comment: +lt(commentPos, node.Pos())
 		after := hasLit(guards, func(l Lit) bool {
-			if l.Kind != "lt" || !l.Pos || P.Desc(l.X) != commentPos {
+			if l.Kind != "lt" || !l.Pos || (P.Desc(l.X) != commentPos && P.DescDeep(l.X) != commentPosDeep) {
 				return false
 			}
 			return P.RootsAll(l.Y, func(r ssa.Value) bool {
@@ -312,6 +313,28 @@ func (c *Ctx) scopeNextNode() {
 					check(st.Val, st, P.GuardsWithin(st, fn))
 				}
 				return
+			}
+			// the search state may be a field of a finder object local to this function, assigned by the walk
+			// callback (a method of that object)
+			if fa, ok := u.X.(*ssa.FieldAddr); ok {
+				if n := P.moduleStruct(deref(fa.X.Type())); n != nil {
+					if a, isLocal := fa.X.(*ssa.Alloc); isLocal && a.Parent() == fn {
+						for _, f := range P.ModFuncs {
+							allInstrs(f, func(_ *ssa.BasicBlock, i2 ssa.Instruction) {
+								st, ok := i2.(*ssa.Store)
+								if !ok {
+									return
+								}
+								fa2, ok := st.Addr.(*ssa.FieldAddr)
+								if !ok || fa2.Field != fa.Field || P.moduleStruct(deref(fa2.X.Type())) != n {
+									return
+								}
+								check(st.Val, st, P.GuardsWithin(st, fn))
+							})
+						}
+						return
+					}
+				}
 			}
 		}
 		for _, leaf := range c.phiLeaves(v, nil, 0) {
@@ -376,6 +399,65 @@ func (c *Ctx) checkDeclSearch(fn *ssa.Function, commentPos string) {
 // scopeInline: findInlineNode — a trailing comment covers its own physical line:
 // start = File.LineStart(line) with line taken from a position NOT adjusted by //line directives,
 // end = comment.End(); "trailing" means some node that starts before the comment ends on the comment's line.
+// tupleOutcome: one way a multi-result function returns: the result values, where (in the function itself) and in
+// which calling context (helpers entered by `return helper(...)`) they have to be read.
+type tupleOutcome struct {
+	Results []ssa.Value
+	At      *ssa.Return // the return statement of the function itself
+	Pins    pinMap
+	Guards  []Lit // guards of the helper's return statement(s) (not those of At's block)
+}
+
+// tupleOutcomes lists the returns of fn; `return helper(args)` (all results taken from one call of a non-anchor
+// product helper) is replaced by the helper's own returns.
+func (c *Ctx) tupleOutcomes(fn *ssa.Function) []tupleOutcome {
+	P := c.P
+	var out []tupleOutcome
+	var expand func(rs []ssa.Value, at *ssa.Return, pins pinMap, g []Lit, depth int)
+	expand = func(rs []ssa.Value, at *ssa.Return, pins pinMap, g []Lit, depth int) {
+		var call *ssa.Call
+		all := len(rs) > 1 && depth < 4
+		for i, r := range rs {
+			ex, ok := r.(*ssa.Extract)
+			if !ok || ex.Index != i {
+				all = false
+				break
+			}
+			cl, ok := ex.Tuple.(*ssa.Call)
+			if !ok || (call != nil && cl != call) {
+				all = false
+				break
+			}
+			call = cl
+		}
+		if all && call != nil {
+			callee := call.Call.StaticCallee()
+			if callee != nil && P.IsProductFunc(callee) && len(callee.Blocks) > 0 && !P.isAnchor(callee) && pins[callee] == nil {
+				np := pinMap{}
+				for k, v := range pins {
+					np[k] = v
+				}
+				np[callee] = call
+				allInstrs(callee, func(b *ssa.BasicBlock, ins ssa.Instruction) {
+					if r, ok := ins.(*ssa.Return); ok && len(r.Results) == len(rs) {
+						var hg []Lit
+						P.PinnedAll(np, func() { hg = P.BlockGuards(b) })
+						expand(r.Results, at, np, append(append([]Lit{}, g...), hg...), depth+1)
+					}
+				})
+				return
+			}
+		}
+		out = append(out, tupleOutcome{rs, at, pins, g})
+	}
+	allInstrs(fn, func(b *ssa.BasicBlock, ins ssa.Instruction) {
+		if r, ok := ins.(*ssa.Return); ok {
+			expand(r.Results, r, nil, nil, 0)
+		}
+	})
+	return out
+}
+
 func (c *Ctx) scopeInline() {
 	P := c.P
 	fn := P.LookupFunc("ignore", "findInlineNode")
@@ -402,69 +484,73 @@ func (c *Ctx) scopeInline() {
 		})
 	}
 	nTrue := 0
-	allInstrs(fn, func(b *ssa.BasicBlock, ins ssa.Instruction) {
-		r, ok := ins.(*ssa.Return)
-		if !ok || len(r.Results) != 3 {
-			return
+	for _, to := range c.tupleOutcomes(fn) {
+		to := to
+		if len(to.Results) != 3 {
+			continue
 		}
-		cv, isC := constBool(r.Results[2])
-		where := P.Pos(r.Pos())
-		if !isC {
-			c.fail("SCOPE/INLINE-RANGE", name, where, "found-flag is not a constant on this return")
-			return
-		}
-		if !cv {
-			return
-		}
-		nTrue++
-		okStart := P.RootsAll(r.Results[0], func(x ssa.Value) bool {
-			ls := P.CallTo(x, "(*go/token.File).LineStart")
-			if ls == nil {
-				return false
+		P.PinnedAll(to.Pins, func() {
+			r := struct{ Results []ssa.Value }{to.Results}
+			b := to.At.Block()
+			cv, isC := constBool(r.Results[2])
+			where := P.Pos(to.At.Pos())
+			if !isC {
+				c.fail("SCOPE/INLINE-RANGE", name, where, "found-flag is not a constant on this return")
+				return
 			}
-			okFile := P.RootsAll(ls.Call.Args[0], func(f ssa.Value) bool {
-				fc := P.CallTo(f, "(*go/token.FileSet).File")
-				return fc != nil && strings.Contains(P.Desc(fc.Call.Args[1]), "(*go/ast.Comment).Pos; "+commentD)
-			})
-			return okFile && isLineOfComment(ls.Call.Args[1])
-		})
-		okEnd := P.RootsAll(r.Results[1], func(x ssa.Value) bool {
-			ec := P.CallTo(x, "(*go/ast.Comment).End")
-			return ec != nil && P.Desc(ec.Call.Args[0]) == commentD
-		})
-		c.check(okStart && okEnd, "SCOPE/INLINE-RANGE", fmt.Sprintf("%s#found%d", name, nTrue), where,
-			"[start of the comment's physical line, comment.End()]",
-			"an inline @ignore does not cover exactly [File.LineStart(<unadjusted line of the comment>), comment.End()]: "+short(P.Desc(r.Results[0])))
-		// why is it inline: a node/declaration before the comment ends on the comment's line
-		just := P.BlockCutBy(b, func(l Lit) bool {
-			if l.Kind == "eq" && l.Pos && (isLineOfComment(l.X) || isLineOfComment(l.Y)) {
-				other := l.X
-				if isLineOfComment(l.X) {
-					other = l.Y
+			if !cv {
+				return
+			}
+			nTrue++
+			okStart := P.RootsAll(r.Results[0], func(x ssa.Value) bool {
+				ls := P.CallTo(x, "(*go/token.File).LineStart")
+				if ls == nil {
+					return false
 				}
-				return strings.Contains(P.Desc(other), ".End;") && strings.Contains(P.Desc(other), "(*go/token.FileSet).PositionFor")
-			}
-			// the flag set by the inner walk
-			if l.Kind == "cond" && l.Pos {
-				return c.flagMeansCodeOnLine(l.Val, fn, isLineOfComment)
-			}
-			return false
-		})
-		c.check(just, "SCOPE/INLINE-WHEN", fmt.Sprintf("%s#found%d", name, nTrue), where, "inline iff code that starts before the comment ends on the comment's line",
-			"a comment is treated as trailing without a node/declaration ending on its line before it")
-		// a comment trailing the LAST declaration of the file lies after every declaration (the search index is
-		// len(Decls)); the "previous declaration ends on this line" case must not require idx < len(Decls)
-		viaPrev := hasLit(P.BlockGuards(b), func(l Lit) bool {
-			return l.Kind == "eq" && l.Pos && (isLineOfComment(l.X) || isLineOfComment(l.Y)) && strings.Contains(P.Desc(l.X)+P.Desc(l.Y), "go/ast.File.Decls")
-		})
-		if viaPrev {
-			restricts := hasLit(P.BlockGuards(b), func(l Lit) bool {
-				return l.Kind == "lt" && l.Pos && strings.HasPrefix(P.Desc(l.X), "call(sort.Search;") && strings.HasPrefix(P.Desc(l.Y), "call(builtin len; field(") && strings.Contains(P.Desc(l.Y), "go/ast.File.Decls)")
+				okFile := P.RootsAll(ls.Call.Args[0], func(f ssa.Value) bool {
+					fc := P.CallTo(f, "(*go/token.FileSet).File")
+					return fc != nil && strings.Contains(P.Desc(fc.Call.Args[1]), "(*go/ast.Comment).Pos; "+commentD)
+				})
+				return okFile && isLineOfComment(ls.Call.Args[1])
 			})
-			c.check(!restricts, "SCOPE/INLINE-LAST-DECL", fmt.Sprintf("%s#found%d", name, nTrue), where, "also for a comment after the last declaration of the file",
-				"a trailing @ignore on the last declaration of a file is not recognised as inline (the trailing-declaration case requires a following declaration)")
-		}
-	})
+			okEnd := P.RootsAll(r.Results[1], func(x ssa.Value) bool {
+				ec := P.CallTo(x, "(*go/ast.Comment).End")
+				return ec != nil && P.Desc(ec.Call.Args[0]) == commentD
+			})
+			c.check(okStart && okEnd, "SCOPE/INLINE-RANGE", fmt.Sprintf("%s#found%d", name, nTrue), where,
+				"[start of the comment's physical line, comment.End()]",
+				"an inline @ignore does not cover exactly [File.LineStart(<unadjusted line of the comment>), comment.End()]: "+short(P.Desc(r.Results[0])))
+			// why is it inline: a node/declaration before the comment ends on the comment's line
+			just := P.BlockCutBy(b, func(l Lit) bool {
+				if l.Kind == "eq" && l.Pos && (isLineOfComment(l.X) || isLineOfComment(l.Y)) {
+					other := l.X
+					if isLineOfComment(l.X) {
+						other = l.Y
+					}
+					return strings.Contains(P.Desc(other), ".End;") && strings.Contains(P.Desc(other), "(*go/token.FileSet).PositionFor")
+				}
+				// the flag set by the inner walk
+				if l.Kind == "cond" && l.Pos {
+					return c.flagMeansCodeOnLine(l.Val, fn, isLineOfComment)
+				}
+				return false
+			})
+			c.check(just, "SCOPE/INLINE-WHEN", fmt.Sprintf("%s#found%d", name, nTrue), where, "inline iff code that starts before the comment ends on the comment's line",
+				"a comment is treated as trailing without a node/declaration ending on its line before it")
+			// a comment trailing the LAST declaration of the file lies after every declaration (the search index is
+			// len(Decls)); the "previous declaration ends on this line" case must not require idx < len(Decls)
+			viaPrev := hasLit(P.BlockGuards(b), func(l Lit) bool {
+				return l.Kind == "eq" && l.Pos && (isLineOfComment(l.X) || isLineOfComment(l.Y)) && strings.Contains(P.Desc(l.X)+P.Desc(l.Y), "go/ast.File.Decls")
+			})
+			if viaPrev {
+				restricts := hasLit(P.BlockGuards(b), func(l Lit) bool {
+					return l.Kind == "lt" && l.Pos && strings.HasPrefix(P.Desc(l.X), "call(sort.Search;") && strings.HasPrefix(P.Desc(l.Y), "call(builtin len; field(") && strings.Contains(P.Desc(l.Y), "go/ast.File.Decls)")
+				})
+				c.check(!restricts, "SCOPE/INLINE-LAST-DECL", fmt.Sprintf("%s#found%d", name, nTrue), where, "also for a comment after the last declaration of the file",
+					"a trailing @ignore on the last declaration of a file is not recognised as inline (the trailing-declaration case requires a following declaration)")
+			}
+		})
+	}
 	c.floor("inline-found returns", nTrue, 2)
 	// LINE-UNADJ for every LineStart in product code
 	nLS := 0
@@ -500,6 +586,26 @@ func (c *Ctx) scopeInline() {
 // "node starts before the comment" and "node ends on the comment's line".
 func (c *Ctx) flagMeansCodeOnLine(v ssa.Value, fn *ssa.Function, isLineOfComment func(ssa.Value) bool) bool {
 	P := c.P
+	// the search may live in a helper that returns the flag
+	if call, isCall := v.(*ssa.Call); isCall {
+		callee := call.Call.StaticCallee()
+		if callee == nil || !P.IsProductFunc(callee) || len(callee.Blocks) == 0 || P.isAnchor(callee) {
+			return false
+		}
+		var ret *ssa.Return
+		n := 0
+		allInstrs(callee, func(_ *ssa.BasicBlock, ins ssa.Instruction) {
+			if r, ok := ins.(*ssa.Return); ok {
+				ret, n = r, n+1
+			}
+		})
+		if n != 1 || len(ret.Results) != 1 {
+			return false
+		}
+		res := false
+		P.PinnedAll(pinMap{callee: call}, func() { res = c.flagMeansCodeOnLine(ret.Results[0], callee, isLineOfComment) })
+		return res
+	}
 	u, ok := v.(*ssa.UnOp)
 	if !ok {
 		return false
